@@ -69,13 +69,17 @@ def generate(seed, tier="quick"):
     kw = {"n_linear_samples": rnd.choice([1, 1, 2])}
     if rnd.random() < 0.4:
         kw["max_posterior_samples"] = rnd.randint(1, max(1, N))
+    if rnd.random() < 0.4:
+        kw["randomize_prior_order"] = True
+    if rnd.random() < 0.4:
+        kw["n_prior_samples"] = rnd.randint(1, max(1, N))
     for _ in range(rnd.randint(2, 4)):
         p = _path(rnd, cfg)
         p["joker"] = "fresh"
         p.setdefault("pool", rnd.choice([{"kind": "serial"}, {"kind": "sim", "size": rnd.randint(1, 6)}]))
         k2 = dict(kw)
         if not p["in_memory"]:
-            k2["n_batches"] = common.gen_n_batches(rnd, N)
+            k2["n_batches"] = common.gen_n_batches(rnd, k2.get("n_prior_samples") or N)
         op = {"id": oid, "op": "rejection", "data": 0, "lib": 0, "role": "accept", "rng_seed": rs, "kw": k2}
         op.update(p)
         ops.append(op)
